@@ -244,9 +244,8 @@ def _run_own(ck):
     ck.ob('R-TABLE-graph', 'add_to_graph/TOFF/hadamards', traw['spiders'] == [(2, 'Z', 'H', Fr(0)), (2, 'Z', 'H', Fr(0))], ck.site(ATG), 'post-selected Toffoli must be the CCZ gadget conjugated by Hadamards on the target (position 2): %s' % traw['spiders'])
     # the compound kinds are translated through their basic-gate expansion: the expansion must be the gate (shared with C15-D2: the constant CCZ / Toffoli
     # sequences multiply out to the gate matrix; the parity-phase expansion has the right phase polynomial for every arity 0..8)
-    from .C15 import d2_structure
-    for key, ok, why, sample in d2_structure(facts):
-        ck.ob('R-TABLE-seq', 'push_basic_gates/' + key, ok, ck.site('gate::Gate::push_basic_gates'), why, sample=sample)
+    from .C15 import seq_obligations
+    seq_obligations(ck, facts)
     # every gate multiplies its scalar into the diagram's scalar: none may overwrite what the gates before it contributed
     nsw = 0
     for key, fn_ in sorted(facts['fns'].items()):
